@@ -125,4 +125,67 @@ PROPS = {
              "distinct_nontrivial = distinct documents",
         assumptions=BASE_ASSUME + ["enumerated keys are generated in the model's own spelling (the public API documentation cannot be consulted offline); `rules` only in comma-separated string form with known rule names"],
     ),
+    "C07": dict(
+        crate="mon_engine", cmd="c07", level="exploration", needs_app=True,
+        floors={"quick": {"go_depth": 300, "go_movetime": 150, "go_clock": 150, "go_infinite": 150, "go_with_searchmoves": 100, "go_without_new_position": 200, "roots_already_threefold": 30, "roots_occurred_twice": 10,
+                          "mate_roots": 10, "stalemate_roots": 5, "roots_fullmove_above_2500": 50, "answered_via_app": 50, "answered_via_app-hooked": 20, "searches_interrupted": 100, "sessions": 100}},
+        rule="sessions of 3-12 ucinewgame/position/go cycles on one engine instance: roots from reference walks of 0-120 moves from seeds (full-move numbers up to 30000), 15% with knight/king shuffle histories so that the root already occurred 2 or >=3 times, 5% mate/stalemate roots; "
+             "go limits from {depth 1-4} u {movetime 0,1,2,5,50} u {wtime/btime in {0,1,50,1000,60000} x winc/binc in {absent,0,1,100}} u {infinite + stop after 0/50us/1ms/20ms/150ms}, 25% with searchmoves (random subset of legal moves, sometimes padded with illegal ones), 40% of cycles without a new position command; "
+             "driven in-process (Engine<CommandUciTx>) with poll intervals {default,1000,5000,20000} and through the shipped binary (plain and hooked build) over pipes; bounded restatement of 'is answered': the answer arrives before a 120 s watchdog (else inconclusive if the search thread is alive, violation if it died); "
+             "each answer judged against the reference position (legal / member of searchmoves / null move iff no legal move), bestmove count = go count after quit; distinct_nontrivial = distinct (root key, go text) pairs + distinct (iteration, abort node) pairs",
+        assumptions=BASE_ASSUME + ["go nodes / go mate / go ponder / go depth 0 are not generated (not finite limits the engine implements); searchmoves always contains at least one legal move",
+                                   "poll intervals below the size of a depth-1 iteration are not used: they would create interruptions the program cannot have"],
+    ),
+    "C08": dict(
+        crate="mon_engine", cmd="c08", level="exploration",
+        floors={"quick": {"value_searches_depth_1": 500, "value_searches_depth_2": 500, "value_searches_depth_3": 500, "forced_mate_in_1_white": 20, "forced_mate_in_1_black": 20, "forced_mate_in_2_white": 20, "forced_mate_in_2_black": 20, "forced_mate_in_3_*": 10,
+                          "positive_mate_reports": 200, "values_that_are_mates": 50, "unrelated_searches_interleaved": 100, "ucinewgame_interleaved": 20}},
+        rule="positions from reference walks (half-move clock <= 40) and synthesised low-material positions, both colours; `position fen P`, `go depth d` (d in 1..3) on one long-lived engine instance per shard with unrelated searches and ucinewgame interleaved; "
+             "the reported score is compared (centipawns exactly, mates as distances) with a plain alpha-beta negamax over the reference move generator (no TT / killers / PV / iterative deepening; capture+promotion quiescence with stand-pat; leaf values from the engine's own static evaluation through the hook), the announced move must attain that value; "
+             "positions the pure rules search proves 'mate in N' (N<=3) must be reported `mate N` at depth 2N-1 with a move that keeps the mate; every positive `mate N` report must carry a legal PV of 2N-1 plies ending in checkmate; distinct_nontrivial = distinct (position key, depth) pairs searched",
+        assumptions=BASE_ASSUME + ["the reference mirrors two engine conventions fixed by the property text: quiescence uses stand-pat also when in check, and is entered when some pseudo-legal capture/promotion exists", "a reference search exceeding 3,000,000 nodes is inconclusive"],
+    ),
+    "C09": dict(
+        crate="mon_engine", cmd="c09", level="fault_enumeration", needs_app=True,
+        floors={"quick": {"searches_enumerated": 50, "interruption_points_enumerated": 5000, "interrupted_after_a_completed_iteration": 3000, "probe_searches": 5000, "consecutive_interruption_runs": 50, "quit_during_search": 50, "movetime_expiry": 30, "stop_after_*": 100, "real_abort_at_node_*": 50}},
+        rule="interruption points are enumerated through the test point at the search's only suspension point: with poll interval 1 every negamax node is a poll, and abort_at_node(n) makes the search behave as if its move time expired at the n-th poll; for each chosen (position, depth) n runs over 1..T (thorough: every n; quick: stride so that <= 700 points per search), "
+             "then 2-5 consecutive interrupted searches at random n; after every interrupted search: (a) the search thread's board dump equals the dump of the position given, (b) `go depth 1` without position answers a move legal in that position with the depth-1 score of a fresh engine, (c) exactly one bestmove, equal to the first PV move of the last completed iteration; "
+             "real schedules without the test point (default 100 000-node poll): go infinite + stop after 0us..400ms, go movetime 1-20, quit during search, in-process and through the shipped binary; distinct_nontrivial = distinct (iteration, ply at abort) pairs observed",
+        assumptions=BASE_ASSUME + ["an interruption inside the very first iteration is reachable only through the test point (the real poll happens every 100 000 nodes); it is checked for board integrity and the follow-up search but not for 'answers a move'"],
+    ),
+    "C10": dict(
+        crate="mon_engine", cmd="c10", level="exploration",
+        floors={"quick": {"layer1_queries": 100000, "layer1_threefold_cases": 10000, "layer1_real_positions": 20000, "layer1_real_threefold": 1000, "layer2_occurrence_count_1": 500, "layer2_occurrence_count_2": 200, "layer2_occurrence_count_3": 100,
+                          "layer3_below_threshold": 150, "layer3_at_or_above_threshold": 60, "fifty_rule_applied": 30, "mate_on_threshold_ply_checks": 20}},
+        rule="layer 1: count_repetitions (hook) against the model 'history[i] occurs >=3 times among i, i-2, ... >= i-window' on random hash histories (2-6 symbols, length <= 400, index offsets up to 60000) and on real shuffle games (hashes and clocks from the board); "
+             "layer 2: lopsided low-material shuffle games (K+Q/R/QR/RR [+pawn] vs K, positions recur at varied distances, occasional pawn push, FEN clocks/move numbers up to 29000): `position fen .. moves <history>`, `go depth 1 searchmoves m` for quiet m; the reference counts occurrences of the resulting position since the last irreversible move; demand |score| <= contempt iff occurrences >= 3, else |score| >= 200; "
+             "layer 3: pawnless lopsided material with no capture or terminal position within d plies, half-move clock h = 0..150 (every value), `go depth d`, d in {1,2}: h+d < 100 => |score| >= 300 (never an early fifty-move draw); h+d >= 100 recorded as fifty_rule_applied; mate in 1 at clock 98-120 must still be `mate 1`; "
+             "distinct_nontrivial = distinct history windows / (game, search move) / (position, clock, depth) cases",
+        assumptions=BASE_ASSUME + ["the sign convention of the contempt offset is not asserted, only its magnitude"],
+    ),
+    "C11": dict(
+        crate="mon_engine", cmd="c11", level="exploration",
+        floors={"quick": {"static_pairs_no-queens": 20000, "static_pairs_queens-one-side": 5000, "static_pairs_queens-few-minors": 2000, "static_pairs_queens-many-minors": 2000, "king_square_sweep": 1000,
+                          "terminal_mate_white_to_move": 100, "terminal_mate_black_to_move": 100, "terminal_stalemate_white_to_move": 50, "terminal_stalemate_black_to_move": 50,
+                          "search_pairs_depth_1": 200, "search_pairs_depth_2": 200, "search_pairs_depth_3": 200, "search_pairs_with_mate_score": 50, "mate_distance_checks_*": 30, "mated_side_checks": 20}},
+        rule="metamorphic: flip = vertical mirror + colour swap (side to move, castling rights, e.p. square) by the reference model, loaded through the ordinary FEN path; static_eval(P) = -static_eval(flip P) over walk positions, synthesised material of all game stages and kings on all 64 squares; "
+             "go depth 1..3 on P and flip(P) must report the same score / mate distance from the mover's view; checkmated side to move gets a losing mate score (also at other move numbers, later = better for the loser), stalemate = 0; forced mates report the same distance at different full-move numbers, and the defender one ply later is `mate -1`; "
+             "distinct_nontrivial = distinct position keys with non-zero evaluation + terminal positions + (key, depth) search pairs",
+        assumptions=BASE_ASSUME,
+    ),
+    "C16": dict(
+        crate="mon_engine", cmd="c16", level="exploration", needs_app=True,
+        floors={"quick": {"sessions": 60, "app_sessions": 30, "lines_info": 3000, "lines_bestmove": 800, "lines_id": 60, "lines_readyok": 30, "pvs_validated": 5000, "searches_judged": 1500, "cycles_where_opponent_played_the_ponder_move": 300, "go_infinite": 150, "go_clock": 150, "go_movetime": 150, "go_depth": 300}},
+        rule="whole sessions of 5-40 position/go cycles on one process: the engine plays its own bestmove and the opponent answers with the ponder move (60%, PV-continuation path) or a random legal move (diverged path), with/without ucinewgame, mixed limits (depth 1-4, movetime, clocks, infinite+stop), uci / isready / debug on|off interleaved; "
+             "half of the sessions through the shipped binary (every stdout line after the banner validated against the monitor's own UCI engine-to-GUI grammar), half in-process (typed events); per search: depth / nodes / time never decrease, every reported PV is a legal line from the searched position per the reference, "
+             "bestmove = first and ponder = second move of the last reported PV (ponder absent iff the PV has one move; no move announced if no PV was reported); distinct_nontrivial = distinct (root key, final PV) pairs",
+        assumptions=BASE_ASSUME,
+    ),
+    "C18": dict(
+        crate="mon_engine", cmd="c18", level="exploration",
+        floors={"quick": {"operations": 1000000, "evictions": 100000, "puts_of_previously_used_key": 100000, "capacity_bucket_1-3": 1000}},
+        rule="random put/get/clear sequences (length 1-2000, capacity 1-64, key universe 1-3x capacity with small and large 64-bit keys, op mix 60/35/5, unique value per put) on the hook handle of HashTable<ZobristHash,u64>, compared after every operation with a 15-line sequential FIFO-map model: get result, len, len <= capacity, insertion queue length = len, load_factor, and presence of every key ever used (right eviction victim); "
+             "distinct_nontrivial = distinct (capacity, operation sequence) cases that ran to the end",
+        assumptions=BASE_ASSUME,
+    ),
 }
